@@ -81,7 +81,9 @@ CURATED = ["a", "A", "é", "É", "É", "ß", "SS", "ss", "ẞ", "İ", "i̇", "I"
            "가", "가", "각", "각", "Å", "Å", "Å", "Ω", "Ω", "q̣̇", "q̣̇", "ạ̈", "ạ̈", "ǆ", "ǅ", "Ǆ", "ŉ", "ʼn", "ΐ", "ΐ", "և", "ԵՒ", "ꭰ", "Ꭰ", "x", "y", "k", "K", "ﬀ", "ff", "㎑", "kHz", "①", "1"]
 
 
-NUMLIKE = ["1", "01", "001", "1.0", "1.", "1e0", "1E0", "+1", "-1", "100", "1e2", "1.0e2", "0", "-0", "0.0", "0x10", "16", "1a", "01a", "null", "NULL", "true", "1"]
+NUMLIKE = ["1", "01", "001", "1.0", "1.", "1e0", "1E0", "+1", "-1", "100", "1e2", "1.0e2", "0", "-0", "0.0", "0x10", "16", "1a", "01a", "null", "NULL", "true", "1",
+           # characters a pattern match would treat as wildcards, next to strings they would match
+           "a_b", "axb", "a%", "ab", "a%b", "azzb", "%", "_", "a*", "a?", "a.b", "a[bc]", "ab]"]
 
 
 def pair_cmds(x, y):
